@@ -83,6 +83,8 @@ var numRE = regexp.MustCompile(`[0-9]+`)
 func normPanic(p any) string {
 	s := fmt.Sprint(p)
 	s = numRE.ReplaceAllString(s, "N")
+	// ./check matches known signatures with fnmatch: keep glob metacharacters out
+	s = strings.NewReplacer("[", "(", "]", ")", "*", "_", "?", "_").Replace(s)
 	if len(s) > 100 {
 		s = s[:100]
 	}
@@ -152,6 +154,9 @@ func finish(sc *vk.Scenario, t *tally) {
 	sort.Strings(keys)
 	for _, k := range keys {
 		sc.Outcome(k)
+		if os.Getenv("VERIF_VERBOSE") == "2" {
+			fmt.Fprintf(os.Stderr, "outcome %-18s %10d  %s\n", sc.Name, t.out[k], k)
+		}
 	}
 }
 
@@ -559,7 +564,9 @@ func checkJSONStd(k kase, t *tally) *finding {
 	var w2 wrap
 	err = json.Unmarshal(b, &w2)
 	t.calls += 5
-	if err != nil || w2.R != r || w2.P == nil || *w2.P != r || w2.S != w.S || len(w2.L) != 2 || w2.L[0] != r || w2.L[1].Valid() || w2.M["k"] != r {
+	// encoding/json turns null into a nil pointer, so a zero *Ref comes back as nil
+	pOK := w2.P != nil && *w2.P == r || !r.Valid() && w2.P == nil
+	if err != nil || w2.R != r || !pOK || w2.S != w.S || len(w2.L) != 2 || w2.L[0] != r || w2.L[1].Valid() || w2.M["k"] != r {
 		return t.bad("json.Marshal+json.Unmarshal", "roundtrip-mismatch", "ref %q: %s -> %+v (%v)", k.A, b, w2, err)
 	}
 	t.nontrivial++
@@ -739,6 +746,8 @@ func checkHashFuncs(k kase, t *tally) *finding {
 type bounds struct {
 	alphaA  []byte // core alphabet
 	lenA    int
+	alphaC  []byte // thorough only: the 12-symbol alphabet of the plan, one symbol longer
+	lenC    int
 	alphaB  []byte // wide alphabet (weird bytes)
 	lenB    int
 	hexSyms []byte
@@ -750,18 +759,19 @@ type bounds struct {
 
 func tierBounds() bounds {
 	b := bounds{
-		alphaA:  []byte("sha1256-0fgA"),
-		lenA:    8,
-		alphaB:  []byte("sha1256-0fgAz9FG_/` \x00\xff"),
+		alphaA:  []byte("sha124569-0fgA"),
+		lenA:    7,
+		alphaB:  []byte("sha1256-0fgAz9FG_/` \x00\xff\""),
 		lenB:    5,
 		hexSyms: []byte("09afgA"),
 		hexVar:  5,
 		bytesN:  2,
 	}
 	if vk.Thorough() {
-		b.lenA, b.lenB = 9, 7
-		b.hexVar = 7
-		b.hexSym2 = []byte("09afgA-F/")
+		b.alphaC, b.lenC = []byte("sha1256-0fgA"), 8
+		b.lenB = 6
+		b.hexVar = 6
+		b.hexSym2 = []byte("09afgA-F")
 		b.deep = true
 		b.bytesN = 3
 	}
@@ -1165,16 +1175,35 @@ func TestCheck(t *testing.T) {
 		return
 	}
 	b := tierBounds()
+	// VERIF_C20_ONLY=<scenario> (debugging aid): run one scenario only
+	want := func(name string) bool { o := os.Getenv("VERIF_C20_ONLY"); return o == "" || o == name }
 	// cheap scenarios first so that a deadline can only cut the big string spaces
-	scenPairs(rn, pool)
-	scenEncodings(rn, pool)
-	scenDigests(rn, b.bytesN)
-	scenPrefix(rn, pool, b.deep)
-	scenHashHex(rn, "hash-hex", b.hexSyms, b.hexVar)
-	if b.hexSym2 != nil {
+	if want("less-pairs") {
+		scenPairs(rn, pool)
+	}
+	if want("encodings") {
+		scenEncodings(rn, pool)
+	}
+	if want("digests") {
+		scenDigests(rn, b.bytesN)
+	}
+	if want("prefix-mutations") {
+		scenPrefix(rn, pool, b.deep)
+	}
+	if want("hash-hex") {
+		scenHashHex(rn, "hash-hex", b.hexSyms, b.hexVar)
+	}
+	if b.hexSym2 != nil && want("hash-hex-wide") {
 		scenHashHex(rn, "hash-hex-wide", b.hexSym2, 5)
 	}
-	scenShortStrings(rn, "short-strings-wide", b.alphaB, b.lenB)
-	scenShortStrings(rn, "short-strings", b.alphaA, b.lenA)
+	if want("short-strings-wide") {
+		scenShortStrings(rn, "short-strings-wide", b.alphaB, b.lenB)
+	}
+	if want("short-strings") {
+		scenShortStrings(rn, "short-strings", b.alphaA, b.lenA)
+	}
+	if b.alphaC != nil && want("short-strings-deep") {
+		scenShortStrings(rn, "short-strings-deep", b.alphaC, b.lenC)
+	}
 	res.Write()
 }
